@@ -232,6 +232,28 @@ fn reader_case<const N: usize>(rng: &mut Rng, rep: &mut Report, cfg: &GenCfg) {
         rep.count(&format!("reader.line_endings.{endings}"));
         out
     };
+    // every sixth LF text: one entry row is listed a second time among its siblings (same key - first name (+ descriptor) or parameter index -
+    // other names in the last column). Such a text denotes no mapping set; a reader that accepts it has merged or lost an entry.
+    if endings == "lf" && rng.chance(1, 6) {
+        let lines: Vec<&str> = text.split_inclusive('\n').collect();
+        let level = |l: &str| -> Option<usize> { let ind = l.bytes().take_while(|b| *b == b'\t').count(); let rest = &l[ind..]; match (ind, rest.as_bytes().first(), rest.as_bytes().get(1)) { (0, Some(b'c'), Some(b'\t')) => Some(0), (1, Some(b'f' | b'm'), Some(b'\t')) => Some(1), (2, Some(b'p'), Some(b'\t')) => Some(2), _ => None } };
+        let rows: Vec<usize> = (1..lines.len()).filter(|i| level(lines[*i]).is_some() && lines[*i].ends_with('\n')).collect();
+        if !rows.is_empty() {
+            let i = *rng.pick(&rows); let lv = level(lines[i]).unwrap();
+            let mut end = i + 1; while end < lines.len() && lines[end].bytes().take_while(|b| *b == b'\t').count() > lv { end += 1; }
+            let row = &lines[i][..lines[i].len() - 1];
+            // the last column gets another name (an empty one gets one); with N >= 2 that column is never part of the key
+            let twin = format!("{row}x\n");
+            let dup: String = lines[..end].concat() + &twin + &lines[end..].concat();
+            let kind = ["class", "field or method", "parameter"][lv];
+            rep.count(&format!("reader.duplicate_key.{kind}"));
+            match guard(|| tiny_v2::read::<N, ()>(dup.as_bytes())) {
+                Err(p) => rep.violation(format!("C03 panic {}", p.site()), json!({"call": "read (text listing one key twice)", "panic": p.message, "text": dup})),
+                Ok(Err(_)) => rep.count("reader.duplicate_key.refused"),
+                Ok(Ok(r)) => rep.violation(format!("C03 read: accepts a text that lists one {kind} key twice (an entry is merged or lost)"), json!({"text": dup, "read_back": maps::from_quill(&r).render()})),
+            }
+        }
+    }
     let foreign = text.contains("\r\n");
     match guard(|| tiny_v2::read::<N, ()>(text.as_bytes())) {
         Err(p) => rep.violation(format!("C03 panic {}", p.site()), json!({"call": "read", "panic": p.message, "text": text})),
